@@ -27,6 +27,64 @@ MARKUP_FILTERS = {"safe", "escape", "e", "tojson"}     # documented to return ma
 HTML_NAMES = ["main.html", "page.xml", "dir/t.htm", "x.html.j2", "y.xml.jinja"]
 
 
+# ---- part A generator: proggen.Gen plus the safety-aware filters of the enlarged fragment ----------------------------
+NEW_FILTERS = all(k in langenc.FILTERS for k in ("replace", "join", "format", "list"))   # present once Lang/ models them
+FMTS = [("%s", 1), ("[%s]", 1), ("%s-%s", 2), ("a%%%s", 1), ("(%s)", 1), ("%s %s %s", 3), ("x", 0), ("%%", 0), ("100%% %s", 1)]
+
+
+class Gen2(proggen.Gen):
+    """proggen.Gen plus the safety-aware filters replace / join / format / list (C02 part A)"""
+
+    def str_list_expr(self, env, d):
+        r = self.rng
+        c = r.below(4)
+        if c == 0:
+            return ("filter", "list", self.str_expr(env, d - 1), [])
+        if c == 1:
+            return self.list_expr(env, d)
+        return ("list", [self.str_expr(env, max(0, d - 1)) if r.chance(2, 3) else self.any_scalar(env, 0) for _ in range(r.below(4))])
+
+    def str_expr(self, env, d):
+        r = self.rng
+        if d > 0 and r.chance(1, 3):
+            c = r.below(4)
+            if c == 0:
+                return ("filter", "replace", self.str_expr(env, d - 1), [self.str_expr(env, 0), self.str_expr(env, d - 1)])
+            if c == 1:
+                args = [] if r.chance(1, 5) else [self.str_expr(env, d - 1)]
+                return ("filter", "join", self.str_list_expr(env, d), args)
+            if c == 2:
+                fv = [n for n, k in env.items() if isinstance(k, str) and k.startswith("fmt:")]
+                if fv and r.chance(1, 2):
+                    name = r.choice(fv)
+                    fe, n = ("var", name), int(env[name][4:])
+                else:
+                    f, n = r.choice(FMTS)
+                    fe = ("str", f)
+                if r.chance(1, 8):
+                    n = max(0, n + r.choice([-1, 1]))
+                return ("filter", "format", fe, [self.any_scalar(env, d - 1) if r.chance(1, 2) else self.str_expr(env, d - 1) for _ in range(n)])
+            return ("filter", "replace", self.str_expr(env, d - 1), [("str", r.choice(["a", "b", "&", ";", "", "lt", "q"])), self.str_expr(env, 0)])
+        return proggen.Gen.str_expr(self, env, d)
+
+    def stmt(self, env, d, in_loop):
+        r = self.rng
+        if d > 0 and self.f["setblock"] and r.chance(1, 12):
+            v = self.fresh("f")
+            f, n = r.choice(FMTS)
+            env[v] = "fmt:%d" % n
+            return ("setblock", v, [("raw", f)], None)
+        if d > 0 and self.f["setblock"] and r.chance(1, 14):
+            v = self.fresh("j")
+            env[v] = "str"
+            return ("setblock", v, [("raw", r.choice([", ", "-", " & ", ""]))], None)
+        return proggen.Gen.stmt(self, env, d, in_loop)
+
+
+def make_gen(rng, features, max_depth, engine_only=False):
+    return (Gen2 if (NEW_FILTERS or engine_only) else proggen.Gen)(rng, features, max_depth=max_depth)
+
+
 def has_meta(s):
     return any(c in s for c in META)
 
@@ -169,7 +227,7 @@ def main():
     nA = 20000 if chk.thorough else 2500
     progs = []
     for j in range(nA):
-        g = proggen.Gen(rng, {"autoescape": False, "strings_with_meta": True}, max_depth=2 + rng.below(3))
+        g = make_gen(rng, {"autoescape": False, "strings_with_meta": True}, 2 + rng.below(3))
         ctx, kinds = evil_context(rng)
         progs.append((g.template(kinds), ctx, HTML_NAMES[j % len(HTML_NAMES)]))
     reqs = [req({nm: proggen.body_src(b)}, nm, ctx) for b, ctx, nm in progs]
@@ -193,6 +251,10 @@ def main():
                     oracle_bad.append((i, rel, out))
                 if not rel:
                     hist["A_render_ok"] += 1
+                    src_i = reqs[i]["templates"][progs[i][2]]
+                    for fn in ("replace", "join", "format", "list"):
+                        if "|" + fn in src_i:
+                            hist["A_uses_" + fn] += 1
                     if "&lt;" in out or "&gt;" in out or "&quot;" in out or "&#x27;" in out:
                         hist["A_output_has_escaped_metachar"] += 1
                         nontriv.add(("A", reqs[i]["templates"][progs[i][2]], json.dumps(progs[i][1], sort_keys=True)))
@@ -246,7 +308,7 @@ def main():
     nW = 10000 if chk.thorough else 1500
     wprogs = []
     for j in range(nW):
-        g = proggen.Gen(rng, {"autoescape": False, "strings_with_meta": True, "include": j % 4 == 0}, max_depth=2 + rng.below(3))
+        g = make_gen(rng, {"autoescape": False, "strings_with_meta": True, "include": j % 4 == 0}, 2 + rng.below(3), engine_only=True)
         ctx, kinds = evil_context(rng, wild=True)
         nm = HTML_NAMES[j % len(HTML_NAMES)]
         # proggen's include statements name inc0.txt / inc1.txt; a .txt template would start with auto-escaping off
@@ -278,7 +340,7 @@ def main():
     nB = 1500 if chk.thorough else 300
     rt_reqs, rt_meta = [], []
     for j in range(nB):
-        g = proggen.Gen(rng, {"autoescape": False, "strings_with_meta": True, "break": False}, max_depth=1 + rng.below(3))
+        g = make_gen(rng, {"autoescape": False, "strings_with_meta": True, "break": False}, 1 + rng.below(3), engine_only=True)
         ctx, kinds = evil_context(rng)
         body = proggen.body_src(g.template(kinds))
         rt_reqs.append(req({"main.html": body}, "main.html", ctx, True))
